@@ -27,6 +27,9 @@ pub struct Shape {
     pub m: usize,
     pub layout: Layout,
     pub entry: Entry,
+    /// all n+m items are assumed pairwise different (one z3 distinct): a single path, used
+    /// for large lopsided inputs that make the search run for hundreds of steps
+    pub all_different: bool,
 }
 
 pub struct C01;
@@ -130,6 +133,7 @@ impl Prop for C01 {
                                 m,
                                 layout,
                                 entry,
+                                all_different: false,
                             });
                         }
                     }
@@ -145,13 +149,41 @@ impl Prop for C01 {
                                 post_n: 0,
                             },
                             entry: Entry::DiffSlices,
+                            all_different: false,
                         });
                     }
                     if n <= 4 && m <= 4 {
                         for layout in [Layout::Slice { pre_o: 0, post_o: 0, pre_n: 0, post_n: 0 }, Layout::Offset { off_o: 2, off_n: 1 }] {
-                            v.push(Shape { alg, n, m, layout, entry: Entry::DeadlineClock });
+                            v.push(Shape { alg, n, m, layout, entry: Entry::DeadlineClock, all_different: false });
                         }
                     }
+                }
+            }
+        }
+        // block-structured inputs (block moves, duplicated blocks, repeats across a shared head / tail)
+        let bl: Vec<Layout> = match tier {
+            Tier::Quick => block_layouts(4, 2),
+            Tier::Thorough => block_layouts(4, 1).into_iter().chain(block_layouts(5, 2)).chain(block_layouts(4, 3)).collect(),
+        };
+        for alg in ALGS {
+            for layout in &bl {
+                let (n, m) = layout_lens(layout, 0, 0);
+                v.push(Shape { alg, n, m, layout: *layout, entry: Entry::AlgDiff, all_different: false });
+            }
+        }
+        // large inputs without any common item (the search then runs for n+m steps):
+        // lopsided and balanced, whole slices and an offset lookup
+        let big: &[(usize, usize)] = match tier {
+            Tier::Quick => &[(1, 520), (520, 1), (127, 390), (3, 300), (60, 60)],
+            Tier::Thorough => &[(1, 520), (520, 1), (127, 390), (390, 127), (3, 300), (300, 3), (60, 60), (200, 260), (1, 1100)],
+        };
+        for alg in ALGS {
+            for &(n, m) in big {
+                if alg == Algorithm::Lcs && n * m > 2000 {
+                    continue; // the LCS table is n*m comparisons
+                }
+                for layout in [Layout::Slice { pre_o: 0, post_o: 0, pre_n: 0, post_n: 0 }, Layout::Offset { off_o: 5, off_n: 1 }] {
+                    v.push(Shape { alg, n, m, layout, entry: Entry::AlgDiff, all_different: true });
                 }
             }
         }
@@ -161,7 +193,18 @@ impl Prop for C01 {
     fn run(&self, s: &Shape) -> String {
         reset_hooks();
         let inp = make_inputs(s.n, s.m, s.layout);
+        if s.all_different {
+            let ids: Vec<u32> = inp.old_items.iter().chain(inp.new_items.iter()).map(|x| x.0).collect();
+            engine::assume(&crate::engine::F::Distinct(ids.clone()));
+            for id in ids {
+                engine::set_hash_class(id, id as u64);
+            }
+            engine::witness("large_all_different_paths");
+        }
         let mut mon = Mon::new(&inp.old, inp.or.clone(), &inp.new, inp.nr.clone());
+        if s.all_different {
+            mon.check_data = false; // no Equal call can occur; nothing to entail
+        }
         let r = run_diff(s.alg, s.entry, &inp, &mut mon);
         claim!(r.is_ok(), "diff returned an error although the hook never fails: {:?}", r);
         mon.after_success();
@@ -179,7 +222,10 @@ impl Prop for C01 {
         if s.entry == Entry::DeadlineClock {
             engine::witness("paths_under_the_symbolic_clock");
         }
-        if !s.layout.is_plain() && s.entry != Entry::DeadlineClock {
+        if matches!(s.layout, Layout::Blocks { .. }) {
+            engine::witness("block_structured_paths");
+        }
+        if !s.layout.is_plain() && s.entry != Entry::DeadlineClock && !s.all_different && !matches!(s.layout, Layout::Blocks { .. }) {
             engine::witness("paths_with_subrange_differential");
             let inp2 = Inputs {
                 old: Seq::Slice(inp.old_items.clone()),
@@ -211,7 +257,7 @@ impl Prop for C01 {
     }
 
     fn shape_json(&self, s: &Shape) -> Value {
-        json!({"alg": alg_name(s.alg), "n": s.n, "m": s.m, "layout": s.layout.to_json(),
+        json!({"all_different": s.all_different, "alg": alg_name(s.alg), "n": s.n, "m": s.m, "layout": s.layout.to_json(),
                "entry": match s.entry { Entry::Module => "module", Entry::AlgDiff => "algorithms::diff", Entry::DiffSlices => "diff_slices", Entry::DeadlineClock => "diff_deadline+clock" }})
     }
     fn shape_from(&self, v: &Value) -> Shape {
@@ -220,6 +266,7 @@ impl Prop for C01 {
             n: v["n"].as_u64().unwrap() as usize,
             m: v["m"].as_u64().unwrap() as usize,
             layout: Layout::from_json(&v["layout"]),
+            all_different: v["all_different"].as_bool().unwrap_or(false),
             entry: match v["entry"].as_str().unwrap() {
                 "module" => Entry::Module,
                 "algorithms::diff" => Entry::AlgDiff,
@@ -230,7 +277,11 @@ impl Prop for C01 {
     }
 
     fn cost(&self, s: &Shape) -> u64 {
-        (s.n + s.m) as u64
+        if s.all_different {
+            1000 + ((s.n + s.m) as u64)
+        } else {
+            (s.n + s.m) as u64
+        }
     }
 
     fn describe(&self, s: &Shape, ints: &[i64], b: &[bool]) -> Value {
@@ -252,7 +303,7 @@ impl Prop for C01 {
                 "similar::algorithms::{Replace,NoFinishHook} (inside patience)",
             ],
             bounds: match tier {
-                Tier::Quick => "3 algorithms x range lengths n,m in 0..=5 (Patience 0..=4) x {slice with 0/1 padding items before/after each range (16 combinations), offset lookups at (0,0),(1,0),(0,2),(3,1)} x entry points {alg module diff, algorithms::diff, diff_slices (whole slices)}, plus algorithms::diff_deadline under the symbolic clock (every expiry point) for n,m<=4; items symbolic over an unbounded alphabet (z3 Int), padding items symbolic too".into(),
+                Tier::Quick => "3 algorithms x range lengths n,m in 0..=5 (Patience 0..=4) x {slice with 0/1 padding items before/after each range (16 combinations), offset lookups at (0,0),(1,0),(0,2),(3,1)} x entry points {alg module diff, algorithms::diff, diff_slices (whole slices)}, plus algorithms::diff_deadline under the symbolic clock (every expiry point) for n,m<=4; plus block-structured inputs (up to 4 blocks of 2 items a side over 3 block types, all items of different block types different; thorough: also block lengths 1 and 3 and 5 blocks) and large inputs without any common item (all items assumed pairwise different, one path each): 1x520, 520x1, 127x390, 3x300, 60x60 (thorough also 390x127, 300x3, 200x260, 1x1100), whole slices and offset lookups; items symbolic over an unbounded alphabet (z3 Int), padding items symbolic too".into(),
                 Tier::Thorough => "as quick, with n,m in 0..=6 (Patience 0..=5), padding before in {0,1,2}; for n+m>8 only a reduced set of layouts".into(),
             },
             outside: "range lengths beyond the bound; Index implementations with side effects; PartialEq implementations that are not equivalence relations; the promptness / plumbing clauses of deadlines (C07)".into(),
@@ -261,7 +312,7 @@ impl Prop for C01 {
                 "Sym's Hash is constant in symbolic runs (lawful); concrete re-executions hash the value".into(),
                 "z3 4.8.12 decides QF_LIA equalities/orderings correctly".into(),
             ],
-            required_witnesses: vec!["paths_with_equal", "paths_with_delete_and_insert", "paths_with_subrange_differential"],
+            required_witnesses: vec!["paths_with_equal", "paths_with_delete_and_insert", "paths_with_subrange_differential", "large_all_different_paths"],
             rule: "one state = one explored path (leaf) of the real code for one shape; one transition = one solver-decided comparison".into(),
         }
     }
@@ -280,6 +331,12 @@ pub fn describe_inputs(n: usize, m: usize, layout: Layout, ints: &[i64]) -> Valu
             let old: Vec<i64> = ints.iter().take(lo).cloned().collect();
             let new: Vec<i64> = ints.iter().skip(lo).take(ln).cloned().collect();
             json!({"old": old, "old_range": [pre_o, pre_o+n], "new": new, "new_range": [pre_n, pre_n+m], "index": "slices"})
+        }
+        Layout::Blocks { old, new, blen } => {
+            let mut it = ints.iter();
+            let pool: Vec<Vec<i64>> = (0..3).map(|t| it.by_ref().take(block_type_len(t, blen)).cloned().collect()).collect();
+            let build = |bs: &[u8; 5]| -> Vec<i64> { bs.iter().filter(|b| **b != 255).flat_map(|b| pool.get(*b as usize).cloned().unwrap_or_default()).collect() };
+            json!({"old": build(&old), "new": build(&new), "index": "slices (whole)", "block_structure": {"old": old.iter().filter(|b| **b != 255).collect::<Vec<_>>(), "new": new.iter().filter(|b| **b != 255).collect::<Vec<_>>(), "block_len": blen}})
         }
         Layout::Offset { off_o, off_n } => {
             let old: Vec<i64> = ints.iter().take(n).cloned().collect();
